@@ -21,8 +21,10 @@ RULE = ('cases: (a, three quarters) the C01 program generator (calls on both end
         'resets / trailers, clean-up, GOAWAY, and for clients constructed as H2Connection() a late change of their '
         'own config.header_encoding. Transcript per step = '
         '(raised exception class and error code, emitted bytes, normalised events incl. header lists and changed '
-        'settings, return value). The case runs in this process (PYTHONHASHSEED=0) twice and in two child '
-        'interpreters (PYTHONHASHSEED=1 and 987654321, time.time/monotonic shifted by years, random reseeded); all '
+        'settings, return value). The case runs in this process (PYTHONHASHSEED=0) twice, with a different program run on other connections in '
+        'between, and in two child '
+        'interpreters (PYTHONHASHSEED=1 and 987654321, time.time/monotonic shifted by years, random reseeded; the second child runs another program before each '
+        'case, so the interpreters have different histories); all '
         'four transcripts must be equal step by step. evaluations = executions (4 per case); non-trivial = the '
         'program has at least 15 steps and (a) a header block with 5 or more fields and a raising call; distinct by '
         'trace')
@@ -66,9 +68,12 @@ def fan_transcript(ch, r):
         ep = Endpoint(True, conn=h2.connection.H2Connection())
         r.labels.add('fan:default-constructed-client')
     else:
-        ep = Endpoint(client)
+        ep = Endpoint(client, header_encoding=ch.pick([None, None, 'utf-8', 'latin-1']))
     enc = Encoder()
     cookies = [(b'cookie', ch.pick([b'a=1', b'b=2', b'c=3', b'dd=44', b'e=5'])) for _ in range(ch.int(0, 6))]
+    if ch.chance(64):
+        # a field whose name decodes differently (or not at all) under different header_encoding settings
+        cookies.append((ch.pick([b'x-caf\xe9', b'x-caf\xc3\xa9']), b'v'))
     req = [(b':method', b'POST'), (b':scheme', b'https'), (b':authority', b'example.com'), (b':path', b'/')] + cookies
     resp = [(b':status', b'200')] + cookies
     log.note('call', 'initiate_connection', None, ep.call('initiate_connection'))
@@ -114,6 +119,17 @@ def fan_transcript(ch, r):
         else:
             log.note('recv', 'trailers', sid, ep.recv(wire.headers(sid, enc.encode(cookies + [(b'x-t', b'1')]),
                                                                    end_stream=True)))
+    if ch.chance(96):
+        # a message with two different content-length fields whose body matches the first of them
+        sid = sids[-1] + 2
+        dup = [(b'content-length', b'5'), (b'content-length', ch.pick([b'7', b'5', b'6']))]
+        if client:
+            log.note('call', 'send_headers', sid, ep.call('send_headers', sid, req))
+            log.note('recv', 'headers', sid, ep.recv(wire.headers(sid, enc.encode([(b':status', b'200')] + dup))))
+        else:
+            log.note('recv', 'headers', sid, ep.recv(wire.headers(sid, enc.encode(req[:4] + dup))))
+        log.note('recv', 'data', sid, ep.recv(wire.data(sid, b'12345', end_stream=True)))
+        r.labels.add('fan:two-content-length-fields')
     _ = ep.c.open_inbound_streams, ep.c.open_outbound_streams
     log.note('call', 'close_connection', None, ep.call('close_connection'))
     r.labels.add('fan')
@@ -140,6 +156,12 @@ def transcript(data):
     return digs, p, r
 
 
+def noise_of(data):
+    """Another program derived from the case: same generator, different choices."""
+    d = bytes(data)
+    return bytes((b * 7 + 3 + i) & 0xff for i, b in enumerate(d[::-1]))
+
+
 def child():
     """Child interpreter: read case hex per line, answer with the per-step digests."""
     import random
@@ -154,7 +176,14 @@ def child():
         if not line.startswith('case:'):
             continue
         try:
-            digs, _, _ = transcript(bytes.fromhex(line[5:]))
+            data = bytes.fromhex(line[5:])
+            if os.environ.get('H2VERIF_NOISE'):
+                # this interpreter has a different history: another program runs before every case
+                try:
+                    transcript(noise_of(data))
+                except Exception:   # noqa: BLE001 - the noise program is not the one being compared
+                    pass
+            digs, _, _ = transcript(data)
             sys.stdout.write(' '.join(digs) + '\n')
         except Exception as e:   # noqa: BLE001 - reported to the parent, which treats it as a harness error
             sys.stdout.write('ERROR %s %r\n' % (type(e).__name__, e))
@@ -167,6 +196,8 @@ def _spawn():
     for i, hs in enumerate(CHILD_SEEDS):
         env = dict(os.environ, PYTHONHASHSEED=hs, H2VERIF_CLOCK_SHIFT=str((i + 1) * 1.0e8),
                    PYTHONDONTWRITEBYTECODE='1')
+        if i == 1:
+            env['H2VERIF_NOISE'] = '1'
         env['PYTHONPATH'] = os.pathsep.join([os.environ.get('H2VERIF_SRC', '/repo/src'), ROOT,
                                              os.path.join(ROOT, '.deps')])
         _children.append(subprocess.Popen(
@@ -199,6 +230,10 @@ def run_case(data):
     r.trace = r0.trace
     r.labels = {lab for lab in r0.labels if not lab.startswith('op:')}
     r.evals = 4
+    try:
+        transcript(noise_of(data))       # a different program on other connections in between
+    except Exception:   # noqa: BLE001
+        pass
     b, _, _ = transcript(data)
     others = [('same-process', b)] + [('hashseed-' + CHILD_SEEDS[i], _ask(i, data)) for i in range(len(_children))]
     for name, d in others:
